@@ -18,9 +18,9 @@ from urllib3.connection import HTTPConnection
 
 K_READN, K_READ1N, K_READINTO, K_READ0, K_READ1, K_READALL = range(6)
 KIND_NAMES = ["read(n)", "read1(n)", "readinto(n)", "read(0)", "read1()", "read()"]
-F_READ, F_LOOP_READ, F_LOOP_READ1, F_LOOP_READINTO, F_STREAM, F_READ_CHUNKED, F_ITER, F_STREAM_NONE = range(8)
+F_READ, F_LOOP_READ, F_LOOP_READ1, F_LOOP_READINTO, F_STREAM, F_READ_CHUNKED, F_ITER, F_STREAM_NONE, F_DATA = range(9)
 FIN_NAMES = ["read()", "loop read(m)", "loop read1(m)", "loop readinto(m)", "stream(m)", "read_chunked(m)", "iter",
-             "stream(None)"]
+             "stream(None)", ".data twice"]
 
 
 class BodyPeer(N.BaseHandler):
@@ -108,6 +108,13 @@ def finish(resp, fin, m, dc, limit):
     pieces = []
     if fin == F_READ:
         pieces.append(resp.read(decode_content=dc))
+        return pieces, None
+    if fin == F_DATA:
+        first = resp.data            # the rest of the body, cached ...
+        again = resp.data            # ... and the same bytes on every later access
+        pieces.append(first)
+        if again != first:
+            return pieces, ".data returned %r the first time and %r the second time" % (first[:40], again[:40])
         return pieces, None
     if fin in (F_LOOP_READ, F_LOOP_READ1, F_LOOP_READINTO):
         kind = {F_LOOP_READ: K_READN, F_LOOP_READ1: K_READ1N, F_LOOP_READINTO: K_READINTO}[fin]
@@ -304,7 +311,7 @@ def JOBS(tier):
         L = len(fx.payload)
         W = len(fx.body)
         chunked = fx.framing == "chunked"
-        fins = [F_READ, F_LOOP_READ, F_LOOP_READ1, F_LOOP_READINTO, F_STREAM, F_ITER, F_STREAM_NONE] + ([F_READ_CHUNKED] if chunked else [])
+        fins = [F_READ, F_LOOP_READ, F_LOOP_READ1, F_LOOP_READINTO, F_STREAM, F_ITER, F_STREAM_NONE, F_DATA] + ([F_READ_CHUNKED] if chunked else [])
         dcs = [True, False] if fx.coding != "identity" else [True]
         if quick:
             segs = [1, W + 1]
